@@ -1,4 +1,5 @@
 import Pycoin.Proofs.Base58
+import Pycoin.Proofs.Bech32Poly
 /-!
 C11 — Base58, Base58Check and Bech32/Bech32m codecs are exact and detect corruption.
 Property theorems (Base58 half; the Bech32 half is in the second part of this file).
@@ -274,3 +275,50 @@ theorem C11_parse_b58_agrees (s : Bytes) :
 #guard a2bHashed [49] matches .error .encodingError
 
 end Pycoin.Base58
+
+/-! # Bech32 / Bech32m -/
+namespace Pycoin.Bech32
+open Pycoin.Gen.Codecs
+
+/-- the literals of `bech32_polymod` in the source are the ones the model uses; the generator has the five words
+the `range(5)` loop reads; the two constants differ -/
+theorem C11_bech32_tables :
+    polymodStart = 1 ∧ polymodTopShift = 25 ∧ polymodMask = 0x1FFFFFF ∧ polymodSymShift = 5 ∧
+    polymodRange = 5 ∧ bech32Generator.length = 5 ∧ bech32mConst ≠ 1 ∧ bech32mConst < 2 ^ 30 ∧
+    bech32Charset.length = 32 ∧ bech32Charset.Nodup ∧ bech32MaxLength = 90 ∧ encBech32 ≠ encBech32m := by
+  decide +kernel
+
+/-- **linearity of `bech32_polymod` over GF(2)**: running the rounds on the xor of two start values and the
+symbol-wise xor of two equally long sequences gives the xor of the two results (any generator words). -/
+theorem C11_bech32_polymod_linear (xs ys : List Nat) (h : xs.length = ys.length) (a b : Nat) :
+    (List.zipWith (· ^^^ ·) xs ys).foldl polymodStep (a ^^^ b) =
+      xs.foldl polymodStep a ^^^ ys.foldl polymodStep b :=
+  foldl_polymodStep_xor xs ys h a b
+
+/-- **bech32_checksum_ok.** For every hrp (any code points), every data list (any non-negative integers) and both
+encodings: `bech32_verify_checksum(hrp, data + bech32_create_checksum(hrp, data, spec)) == spec`. -/
+theorem C11_bech32_checksum_ok (hrp : List Char) (data : List Nat) (spec : Encoding) :
+    verifyChecksum hrp (data ++ createChecksum hrp data spec) = some spec := by
+  unfold verifyChecksum
+  simp only [polymod_with_checksum]
+  have hne : bech32mConst ≠ 1 := by decide
+  cases spec <;> simp [specConst, hne]
+
+/-- the checksum is the *only* six-symbol suffix accepted for that encoding: if `data ++ l` verifies as `spec`
+with `l` six symbols below 32, then `l` is `bech32_create_checksum(hrp, data, spec)` -/
+theorem C11_bech32_checksum_unique (hrp : List Char) (data l : List Nat) (spec : Encoding) (hl : l.length = 6)
+    (hlt : ∀ x ∈ l, x < 32) (h : verifyChecksum hrp (data ++ l) = some spec) :
+    l = createChecksum hrp data spec := by
+  apply checksum_unique hrp data l spec hl hlt
+  unfold verifyChecksum at h
+  have hne : bech32mConst ≠ 1 := by decide
+  simp only at h
+  split at h
+  · rename_i h1
+    injection h with h; subst h; exact h1
+  · split at h
+    · rename_i h1 h2
+      injection h with h; subst h; exact h2
+    · cases h
+
+end Pycoin.Bech32
